@@ -40,7 +40,7 @@ from ..ast.fpyast import (
     UnderscoreId,
     Var,
 )
-from ..ast.visitor import DefaultTransformVisitor
+from ..ast.visitor import DefaultTransformVisitor, DefaultVisitor
 from ..utils import Id
 from .utils import clone
 
@@ -195,6 +195,46 @@ def _binding_names(target: Id | TupleBinding) -> list[NamedId]:
             return out
         case _:
             return []
+
+
+class _VarNames(DefaultVisitor):
+    """Collects the names an expression reads."""
+
+    def __init__(self):
+        super().__init__()
+        self.names: set[NamedId] = set()
+
+    def _visit_var(self, e: Var, ctx: Any):
+        self.names.add(e.name)
+
+
+class _CompBoundNames(DefaultVisitor):
+    """Collects the names bound by comprehensions nested in an expression."""
+
+    def __init__(self):
+        super().__init__()
+        self.names: set[NamedId] = set()
+
+    def _visit_list_comp(self, e: ListComp, ctx: Any):
+        for target in e.targets:
+            self.names.update(_binding_names(target))
+        super()._visit_list_comp(e, ctx)
+
+
+def substitution_is_captured(subst: dict[NamedId, Expr], e: Expr) -> bool:
+    """Whether substituting into *e* would capture a variable.
+
+    A replacement such as ``xs[i]`` reads `xs` and `i`; a comprehension nested
+    in *e* that binds either name would make the substituted read refer to its
+    own variable instead.  :class:`SubstNames` respects shadowing of the
+    *substituted* names only, so the callers leave such a comprehension alone.
+    """
+    free = _VarNames()
+    for replacement in subst.values():
+        free._visit_expr(replacement, None)
+    bound = _CompBoundNames()
+    bound._visit_expr(e, None)
+    return bool(free.names & bound.names)
 
 
 class SubstNames(DefaultTransformVisitor):
